@@ -121,8 +121,8 @@ def run_exhaustive(c, cfgs, clause, orders=3, trace_every=10, lazy=False, parts=
         with open(alltr, "w") as f:
             for rep, tr in outs:
                 f.write(open(tr).read())
-                for k in total:
-                    total[k] += rep["stats"].get(k, 0)
+                for k, v in rep["stats"].items():
+                    total[k] = total.get(k, 0) + v
                 for m in rep.get("mismatches") or []:
                     c.violation(clause, "model-replay:" + m["kind"],
                                 "real consensus disagrees with Lachesis.tla (%s) on a DAG of cfg %s in order %s: want %s got %s" % (
